@@ -35,6 +35,9 @@
 #include "stir/Bin.h"
 #include "stir/ExamInfo.h"
 #include "stir/Succeeded.h"
+#include "stir/IO/read_from_file.h"
+#include <functional>
+#include <memory>
 #include <algorithm>
 #include <array>
 #include <cmath>
@@ -388,19 +391,37 @@ struct Out
   FILE *ops, *impl, *orc;
   long checks = 0, fails = 0;
   std::set<std::string> candidates;
+  // mute: nothing is written and nothing is counted (used for the twin objects of the re-use histories, whose answers are only
+  // recorded); rec: every (operation, answer) is also appended here
+  bool mute = false;
+  std::vector<std::pair<std::string, std::string>>* rec = nullptr;
   void line(const std::string& op, const std::string& ans)
   {
+    if (rec)
+      rec->push_back(std::make_pair(op, ans));
+    if (mute)
+      return;
     std::fprintf(ops, "%s\n", op.c_str());
     std::fprintf(impl, "%s\n", ans.c_str());
   }
+  // an answer that is recorded for the comparison between objects only (no model line)
+  void note(const std::string& op, const std::string& ans)
+  {
+    if (rec)
+      rec->push_back(std::make_pair("note " + op, ans));
+  }
   void fail(const std::string& text)
   {
+    if (mute)
+      return;
     ++fails;
     if (fails <= 60)
       std::fprintf(orc, "ORACLE-FAIL %s\n", text.c_str());
   }
   void candidate(const std::string& key, const std::string& text)
   {
+    if (mute)
+      return;
     ++fails;
     if (candidates.insert(key).second)
       std::fprintf(orc, "KNOWN-CANDIDATE %s %s\n", key.c_str(), text.c_str());
@@ -738,6 +759,344 @@ guarded(F f)
 }
 
 // ------------------------------------------------------------------------------------------------
+// Everything one set-up object is asked and compared with (model lines + textbook oracle): every subset of its n subsets, all
+// quantities, the full-data functions, the sums over the subsets, the total sensitivity.  `obj` has been set up for the configuration
+// of `k` with n subsets (by its first or by a later set_up); `recompute`: that set_up computed the sensitivities (else it read them).
+static void
+check_object(Out& o, Case& k, Obj* obj, const int n, const float c0, const bool recompute, std::map<std::string, long>& hist)
+{
+  const CaseCfg& c = k.c;
+  const int nvox = k.ix->size();
+  shared_ptr<TargetT> lam_im(k.image->get_empty_copy()), x_im(k.image->get_empty_copy());
+  from_vec(*lam_im, k.lam);
+  from_vec(*x_im, k.x);
+  const int tofmax_req = c.maxtof >= 0 ? c.maxtof : k.tofmax_data;
+  {
+    // ---- what set_up made of the segment range, the TOF range and the TOF sensitivity switch
+    const int tofmax_obs = obj->get_max_timing_pos_num_to_process();
+    const bool tofsens_obs = obj->get_use_tofsens();
+    const bool same_proj = !k.tof || tofsens_obs;
+    const bool restricted = tofmax_req < k.tofmax_data;
+    o.line("segrange " + std::to_string(c.maxseg) + " " + std::to_string(k.g.pdi->get_max_segment_num()),
+           std::to_string(obj->get_max_segment_num_to_process()));
+    o.line("tofrange " + std::to_string(c.maxtof) + " " + std::to_string(k.tofmax_data), std::to_string(tofmax_obs));
+    // (PoissonLogLikelihoodWithLinearModelForMeanAndProjData.cxx:653-671) TOF normalisation data and a restricted TOF range switch TOF sensitivities on
+    o.line(std::string(recompute ? "tofsens 1 " : "tofsens 0 ") + (c.use_tofsens ? "1" : "0") + " " + (k.tof ? "1" : "0") + " " + (restricted ? "1" : "0") + k.norm_links,
+           tofsens_obs ? "1" : "0");
+    o.checks += 3;
+    if (same_proj != (k.same_proj || restricted))
+      o.fail(std::string("sensitivity computed with the ") + (same_proj ? "TOF" : "non-TOF") + " projector, expected the other one: " + c.str());
+    if (tofmax_obs != tofmax_req)
+      o.fail("set_max_timing_pos_num_to_process(" + std::to_string(c.maxtof) + ") before set_up: after set_up get_max_timing_pos_num_to_process() = "
+             + std::to_string(tofmax_obs) + ", expected " + std::to_string(tofmax_req) + "; " + c.str() + " n=" + std::to_string(n));
+    else if (c.maxtof >= 0)
+      ++hist["tofrange-restricted"];
+    if (!same_proj && restricted)
+      o.fail("TOF range restricted to " + std::to_string(tofmax_req) + " but the sensitivity is computed with the non-TOF projector (all TOF bins): " + c.str());
+    // All comparisons (model lines and oracle) are for the requested TOF range.
+    const int tofmax_eff = tofmax_req;
+    // all bins of the data set within the segment and TOF range (for the "sum over subsets = full" clause), independent of the subset scheme
+    const Geo& gs = same_proj ? k.g : k.gs;
+    const int stofmax = same_proj ? tofmax_eff : 0;
+    const char* sens_op = same_proj ? "sens" : "ssens";
+    const char* sensdiv_op = same_proj ? "sensdiv" : "ssensdiv";
+    std::vector<int> all_bins, all_sens_bins;
+    for (std::size_t i = 0; i < k.g.bins.size(); ++i)
+      if (std::abs(k.g.bins[i].seg) <= k.maxseg_eff && std::abs(k.g.bins[i].tof) <= tofmax_eff && !(c.zero && k.g.bins[i].endplane))
+        all_bins.push_back(static_cast<int>(i));
+    for (std::size_t i = 0; i < gs.bins.size(); ++i)
+      if (std::abs(gs.bins[i].seg) <= k.maxseg_eff && std::abs(gs.bins[i].tof) <= stofmax && !(c.zero && gs.bins[i].endplane))
+        all_sens_bins.push_back(static_cast<int>(i));
+
+    const DataSymmetriesForViewSegmentNumbers& sym = *k.pair->get_symmetries_used();
+    shared_ptr<DataSymmetriesForViewSegmentNumbers> sens_sym_holder;
+    if (!same_proj)
+      {
+        // symmetries of a projector with the same switches on the non-TOF geometry (what the clone of the back projector uses)
+        shared_ptr<ProjectorByBinPair> p2 = make_pair_with_symmetries(c.symflags);
+        p2->set_up(k.gs.pdi, k.image);
+        sens_sym_holder.reset(p2->get_symmetries_used()->clone());
+      }
+    const DataSymmetriesForViewSegmentNumbers& ssym = same_proj ? sym : *sens_sym_holder;
+
+    std::vector<double> sum_grad(nvox, 0.), sum_gps(nvox, 0.), sum_sens(nvox, 0.), sum_hess(nvox, 0.), sum_mag_grad(nvox, 0.),
+        sum_mag_hess(nvox, 0.);
+    double sum_value = 0;
+    std::map<int, int> vg_count;
+    bool all_regular = true;
+
+    for (int s = 0; s < n; ++s)
+      {
+        const std::vector<int> vg = subset_viewgrams(k.g, sym, k.maxseg_eff, tofmax_eff, s, n);
+        const std::vector<int> svg = subset_viewgrams(gs, ssym, k.maxseg_eff, stofmax, s, n);
+        for (int id : vg)
+          vg_count[id]++;
+        const std::string tail = ids_str(vg);
+        const std::vector<int> tb_bins = bins_of(k.g, vg, c.zero);
+        const std::vector<int> tb_sbins = bins_of(gs, svg, c.zero);
+        std::string ctx = c.str() + " n=" + std::to_string(n) + " subset=" + std::to_string(s);
+
+        // ---- value
+        double value = 0;
+        const bool value_ok = guarded([&] { value = obj->compute_objective_function(*lam_im, s); });
+        o.line("val" + tail, value_ok ? vh::hex(value) : "err");
+        {
+          Textbook t = textbook(Q_VALUE, k.g, tb_bins, c.additive, k.lam, k.x, nvox);
+          ++o.checks;
+          all_regular = all_regular && t.regular;
+          if (!value_ok)
+            o.fail("value: exception " + ctx);
+          else if (t.regular)
+            {
+              ++hist["oracle-value-regular"];
+              if (!(std::fabs(value - t.s) <= ORACLE_REL * t.sm + 1e-30))
+                o.fail("value differs from sum_b y log(n(P lambda + a)) - n(P lambda + a): impl=" + vh::hex(value) + " textbook=" + vh::hex(t.s) + " "
+                       + ctx);
+            }
+          else
+            ++hist["oracle-value-irregular"];
+          sum_value += value;
+        }
+        // ---- gradient
+        shared_ptr<TargetT> grad(k.image->get_empty_copy());
+        grad->fill(7.F); // must be overwritten
+        const bool grad_ok = guarded([&] { obj->compute_sub_gradient(*grad, *lam_im, s); });
+        const std::vector<float> gradv = to_vec(*grad);
+        o.line("grad" + tail, grad_ok ? hexvec(gradv) : "err");
+        shared_ptr<TargetT> gps(k.image->get_empty_copy());
+        gps->fill(-3.F);
+        const bool gps_ok = guarded([&] { obj->compute_sub_gradient_without_penalty_plus_sensitivity(*gps, *lam_im, s); });
+        const std::vector<float> gpsv = to_vec(*gps);
+        o.line("gps" + tail, gps_ok ? hexvec(gpsv) : "err");
+        // ---- subset sensitivity
+        std::vector<float> sensv;
+        const bool sens_ok = guarded([&] { sensv = to_vec(obj->get_subset_sensitivity(s)); });
+        if (c.use_subset_sens)
+          o.line(sens_op + ids_str(svg), sens_ok ? hexvec(sensv) : "err");
+        else
+          {
+            // total sensitivity divided by the number of subsets
+            std::vector<int> allvg;
+            for (int s2 = 0; s2 < n; ++s2)
+              {
+                const std::vector<int> v2 = subset_viewgrams(gs, ssym, k.maxseg_eff, stofmax, s2, n);
+                allvg.insert(allvg.end(), v2.begin(), v2.end());
+              }
+            o.line(std::string(sensdiv_op) + " " + std::to_string(n) + ids_str(allvg), sens_ok ? hexvec(sensv) : "err");
+          }
+        {
+          Textbook tg = textbook(Q_GRAD, k.g, tb_bins, c.additive, k.lam, k.x, nvox);
+          Textbook tp = textbook(Q_GPS, k.g, tb_bins, c.additive, k.lam, k.x, nvox);
+          Textbook ts = textbook(Q_SENS, gs, tb_sbins, c.additive, k.lam, k.x, nvox);
+          o.checks += 4;
+          if (!grad_ok || !gps_ok || !sens_ok)
+            o.fail("gradient/sensitivity: exception " + ctx);
+          else
+            {
+              if (tg.regular)
+                {
+                  ++hist["oracle-gradient-regular"];
+                  int bad = cmp_vec(gradv, tg.v, tg.m, ORACLE_REL);
+                  if (bad >= 0)
+                    o.fail("gradient differs from P^T(y/(P lambda + a) - n) at voxel " + std::to_string(bad) + ": impl=" + vh::hex(gradv[bad])
+                           + " textbook=" + vh::hex(tg.v[bad]) + " " + ctx);
+                  bad = cmp_vec(gpsv, tp.v, tp.m, ORACLE_REL);
+                  if (bad >= 0)
+                    o.fail("gradient-plus-sensitivity differs from P^T(y/(P lambda + a)) at voxel " + std::to_string(bad) + ": impl="
+                           + vh::hex(gpsv[bad]) + " textbook=" + vh::hex(tp.v[bad]) + " " + ctx);
+                }
+              else
+                ++hist["oracle-gradient-irregular"];
+              if (c.use_subset_sens)
+                {
+                  ++hist["oracle-subset-sensitivity"];
+                  int bad = cmp_vec(sensv, ts.v, ts.m, ORACLE_REL);
+                  if (bad >= 0)
+                    o.fail("subset sensitivity differs from P^T n at voxel " + std::to_string(bad) + ": impl=" + vh::hex(sensv[bad]) + " textbook="
+                           + vh::hex(ts.v[bad]) + " " + ctx);
+                }
+              // "gradient plus sensitivity" exceeds the gradient by exactly the sensitivity (same projector; subset sensitivities)
+              if (same_proj && c.use_subset_sens)
+                {
+                  ++hist["oracle-gps-minus-grad"];
+                  std::vector<float> diff(nvox);
+                  std::vector<double> mag(nvox);
+                  for (int i = 0; i < nvox; ++i)
+                    diff[i] = gpsv[i] - gradv[i], mag[i] = tg.m[i] + ts.m[i] + std::fabs(gpsv[i]) + std::fabs(gradv[i]);
+                  int bad = cmp_vec(diff, ts.v, mag, ORACLE_REL);
+                  if (bad >= 0)
+                    o.fail("gradient_plus_sensitivity - gradient != P^T n at voxel " + std::to_string(bad) + ": "
+                           + vh::hex(diff[bad]) + " vs " + vh::hex(ts.v[bad]) + " " + ctx);
+                  std::vector<double> sd(sensv.begin(), sensv.end());
+                  bad = cmp_vec(diff, sd, mag, ORACLE_REL);
+                  if (bad >= 0)
+                    o.fail("gradient_plus_sensitivity - gradient != get_subset_sensitivity at voxel " + std::to_string(bad) + ": "
+                           + vh::hex(diff[bad]) + " vs " + vh::hex(sensv[bad]) + " " + ctx);
+                }
+              for (int i = 0; i < nvox; ++i)
+                sum_grad[i] += gradv[i], sum_gps[i] += gpsv[i], sum_sens[i] += sensv[i], sum_mag_grad[i] += std::fabs(gradv[i]) + tg.m[i];
+            }
+        }
+        // ---- Hessian times input
+        shared_ptr<TargetT> hs(k.image->get_empty_copy());
+        hs->fill(c0);
+        Succeeded hs_s = Succeeded::no;
+        const bool hess_ok = guarded([&] { hs_s = obj->accumulate_sub_Hessian_times_input(*hs, *lam_im, *x_im, s); }) && hs_s == Succeeded::yes;
+        const std::vector<float> hessv = to_vec(*hs);
+        o.line("hess " + vh::hex(c0) + tail, hess_ok ? hexvec(hessv) : "err");
+        {
+          Textbook th = textbook(Q_HESS, k.g, tb_bins, c.additive, k.lam, k.x, nvox);
+          ++o.checks;
+          if (!hess_ok)
+            o.fail("Hessian times input: exception " + ctx);
+          else if (th.regular)
+            {
+              ++hist["oracle-hessian-regular"];
+              std::vector<float> h0(nvox);
+              for (int i = 0; i < nvox; ++i)
+                h0[i] = hessv[i] - c0, th.m[i] += std::fabs(c0);
+              int bad = cmp_vec(h0, th.v, th.m, ORACLE_REL);
+              // (the bins of the data: with zero_seg0_end_planes the end planes of segment 0 are excluded, as for value and gradient)
+              if (bad >= 0)
+                o.fail("Hessian times input differs from -P^T diag(y/(P lambda + a)^2) P x at voxel " + std::to_string(bad) + ": impl="
+                       + vh::hex(h0[bad]) + " textbook=" + vh::hex(th.v[bad]) + " " + ctx);
+            }
+          else
+            ++hist["oracle-hessian-irregular"];
+          for (int i = 0; i < nvox; ++i)
+            sum_hess[i] += double(hessv[i]) - c0, sum_mag_hess[i] += th.m[i] + std::fabs(hessv[i]);
+        }
+        // ---- approximate Hessian
+        shared_ptr<TargetT> ah(k.image->get_empty_copy());
+        ah->fill(c0);
+        Succeeded ah_s = Succeeded::no;
+        const bool ah_ok = guarded([&] { ah_s = obj->add_multiplication_with_approximate_sub_Hessian(*ah, *x_im, s); }) && ah_s == Succeeded::yes;
+        o.line("ahess " + vh::hex(c0) + tail, ah_ok ? hexvec(to_vec(*ah)) : "err");
+        ++o.checks;
+        if (!ah_ok)
+          o.fail("approximate Hessian: exception " + ctx);
+      }
+
+    // ---- the full-data functions of the API against the sum of the subset results
+    {
+      std::string ctx = c.str() + " n=" + std::to_string(n);
+      o.checks += 2;
+      double full_value = 0;
+      shared_ptr<TargetT> full_grad(k.image->get_empty_copy());
+      full_grad->fill(5.F);
+      if (!guarded([&] {
+            full_value = obj->compute_objective_function(*lam_im);
+            obj->compute_gradient(*full_grad, *lam_im);
+          }))
+        o.fail("full-data value/gradient: exception " + ctx);
+      else
+        {
+          o.note("full-value", vh::hex(full_value));
+          o.note("full-gradient", hexvec(to_vec(*full_grad)));
+          if (!(std::fabs(full_value - sum_value) <= 1e-9 * (std::fabs(sum_value) + 1)))
+            o.fail("compute_objective_function(image) != sum over subsets: " + vh::hex(full_value) + " vs " + vh::hex(sum_value) + " " + ctx);
+          std::vector<float> fg = to_vec(*full_grad);
+          int bad = cmp_vec(fg, sum_grad, sum_mag_grad, 1e-5);
+          if (bad >= 0)
+            o.fail("compute_gradient != sum over subsets of compute_sub_gradient at voxel " + std::to_string(bad) + " " + ctx);
+        }
+      // full-data Hessian product of the API = the subset products accumulated one after the other (any configuration)
+      {
+        ++o.checks;
+        shared_ptr<TargetT> fh(k.image->get_empty_copy());
+        fh->fill(c0);
+        Succeeded fs = Succeeded::no;
+        if (!(guarded([&] { fs = obj->accumulate_Hessian_times_input(*fh, *lam_im, *x_im); }) && fs == Succeeded::yes))
+          o.fail("full-data Hessian times input: exception " + ctx);
+        else
+          {
+            std::vector<float> fhv = to_vec(*fh);
+            o.note("full-hessian", hexvec(fhv));
+            std::vector<double> expect(nvox), mag(nvox);
+            for (int i = 0; i < nvox; ++i)
+              fhv[i] -= c0, expect[i] = sum_hess[i], mag[i] = sum_mag_hess[i] + std::fabs(c0) * (n + 1);
+            int bad = cmp_vec(fhv, expect, mag, 1e-5);
+            if (bad >= 0)
+              o.fail("accumulate_Hessian_times_input != sum over subsets of accumulate_sub_Hessian_times_input at voxel " + std::to_string(bad) + ": "
+                     + vh::hex(fhv[bad]) + " vs " + vh::hex(expect[bad]) + " " + ctx);
+          }
+      }
+      // subset numbers outside 0..n-1 are refused (GeneralisedObjectiveFunction.cxx:136, :232)
+      for (int s : { -1, n, n + 3, 0 })
+        {
+          shared_ptr<TargetT> tmp(k.image->get_empty_copy());
+          const bool ok1 = guarded([&] { obj->compute_sub_gradient(*tmp, *lam_im, s); });
+          const bool ok2 = guarded([&] { obj->compute_objective_function(*lam_im, s); });
+          o.line("range " + std::to_string(n) + " " + std::to_string(s), std::string(ok1 ? "ok" : "err") + " " + (ok2 ? "ok" : "err"));
+          ++o.checks;
+          if (ok1 != (s >= 0 && s < n) || ok2 != (s >= 0 && s < n))
+            o.fail("subset number " + std::to_string(s) + " of " + std::to_string(n) + (ok1 ? " accepted" : " refused") + " " + ctx);
+        }
+    }
+    // ---- each quantity summed over all subsets equals its full-data counterpart (textbook on ALL bins, no subset scheme involved)
+    {
+      std::string ctx = c.str() + " n=" + std::to_string(n);
+      o.checks += 5;
+      // every viewgram of the segment range exactly once over the subsets
+      bool part_ok = true;
+      for (auto& kv : k.g.vgid)
+        if (std::abs(kv.first[0]) <= k.maxseg_eff && std::abs(kv.first[2]) <= tofmax_eff)
+          part_ok = part_ok && vg_count[kv.second] == 1;
+      for (auto& kv : vg_count)
+        part_ok = part_ok && kv.second == 1;
+      if (!part_ok)
+        o.fail("viewgrams of the subsets do not partition the data " + ctx);
+      Textbook tv = textbook(Q_VALUE, k.g, all_bins, c.additive, k.lam, k.x, nvox);
+      Textbook tg = textbook(Q_GRAD, k.g, all_bins, c.additive, k.lam, k.x, nvox);
+      Textbook ts = textbook(Q_SENS, gs, all_sens_bins, c.additive, k.lam, k.x, nvox);
+      Textbook th = textbook(Q_HESS, k.g, all_bins, c.additive, k.lam, k.x, nvox);
+      if (tv.regular)
+        {
+          ++hist["oracle-sum-over-subsets"];
+          if (!(std::fabs(sum_value - tv.s) <= ORACLE_REL * tv.sm + 1e-30))
+            o.fail("sum over subsets of the value != full-data value: " + vh::hex(sum_value) + " vs " + vh::hex(tv.s) + " " + ctx);
+          std::vector<float> sg(sum_grad.begin(), sum_grad.end());
+          int bad = cmp_vec(sg, tg.v, tg.m, 2 * ORACLE_REL);
+          if (bad >= 0)
+            o.fail("sum over subsets of the gradient != full-data gradient at voxel " + std::to_string(bad) + " " + ctx);
+          {
+            const Textbook& thh = th;
+            if (thh.regular)
+              {
+                ++hist["oracle-sum-over-subsets-hessian"];
+                std::vector<float> sh(sum_hess.begin(), sum_hess.end());
+                bad = cmp_vec(sh, thh.v, sum_mag_hess, 2 * ORACLE_REL);
+                if (bad >= 0)
+                  o.fail("sum over subsets of Hessian times input != full-data Hessian times input at voxel " + std::to_string(bad) + ": "
+                         + vh::hex(sh[bad]) + " vs " + vh::hex(thh.v[bad]) + " " + ctx);
+              }
+          }
+        }
+      {
+        std::vector<float> ss(sum_sens.begin(), sum_sens.end());
+        int bad = cmp_vec(ss, ts.v, ts.m, 2 * ORACLE_REL);
+        if (bad >= 0)
+          o.fail("sum over subsets of the subset sensitivities != full sensitivity P^T n at voxel " + std::to_string(bad) + ": " + vh::hex(ss[bad])
+                 + " vs " + vh::hex(ts.v[bad]) + " " + ctx);
+        std::vector<float> tot = to_vec(obj->get_sensitivity());
+        bad = cmp_vec(tot, ts.v, ts.m, 2 * ORACLE_REL);
+        if (bad >= 0)
+          o.fail("get_sensitivity() != P^T n at voxel " + std::to_string(bad) + ": " + vh::hex(tot[bad]) + " vs " + vh::hex(ts.v[bad]) + " " + ctx);
+        // the total sensitivity goes to the model, too: the sensitivity of all viewgrams of the data set
+        std::vector<int> allsvg;
+        for (int s2 = 0; s2 < n; ++s2)
+          {
+            const std::vector<int> v2 = subset_viewgrams(gs, ssym, k.maxseg_eff, stofmax, s2, n);
+            allsvg.insert(allsvg.end(), v2.begin(), v2.end());
+          }
+        o.line(sens_op + ids_str(allsvg), hexvec(tot));
+      }
+    }
+  }
+}
+
+
+// ------------------------------------------------------------------------------------------------
 // one configuration: every legal number of subsets, every subset, all quantities
 static void
 run_case(Out& o, Case& k, vh::Rng& rng, int case_id, bool thorough, std::map<std::string, long>& hist)
@@ -858,316 +1217,8 @@ run_case(Out& o, Case& k, vh::Rng& rng, int case_id, bool thorough, std::map<std
           continue;
         }
       ++hist["setup-ok"];
-      // ---- what set_up made of the segment range, the TOF range and the TOF sensitivity switch
-      const int tofmax_obs = obj->get_max_timing_pos_num_to_process();
-      const bool tofsens_obs = obj->get_use_tofsens();
-      const bool same_proj = !k.tof || tofsens_obs;
-      const bool restricted = tofmax_req < k.tofmax_data;
-      o.line("segrange " + std::to_string(c.maxseg) + " " + std::to_string(k.g.pdi->get_max_segment_num()),
-             std::to_string(obj->get_max_segment_num_to_process()));
-      o.line("tofrange " + std::to_string(c.maxtof) + " " + std::to_string(k.tofmax_data), std::to_string(tofmax_obs));
-      // (PoissonLogLikelihoodWithLinearModelForMeanAndProjData.cxx:653-671) TOF normalisation data and a restricted TOF range switch TOF sensitivities on
-      o.line(std::string("tofsens 1 ") + (c.use_tofsens ? "1" : "0") + " " + (k.tof ? "1" : "0") + " " + (restricted ? "1" : "0") + k.norm_links,
-             tofsens_obs ? "1" : "0");
-      o.checks += 3;
-      if (same_proj != (k.same_proj || restricted))
-        o.fail(std::string("sensitivity computed with the ") + (same_proj ? "TOF" : "non-TOF") + " projector, expected the other one: " + c.str());
-      if (tofmax_obs != tofmax_req)
-        o.fail("set_max_timing_pos_num_to_process(" + std::to_string(c.maxtof) + ") before set_up: after set_up get_max_timing_pos_num_to_process() = "
-               + std::to_string(tofmax_obs) + ", expected " + std::to_string(tofmax_req) + "; " + c.str() + " n=" + std::to_string(n));
-      else if (c.maxtof >= 0)
-        ++hist["tofrange-restricted"];
-      if (!same_proj && restricted)
-        o.fail("TOF range restricted to " + std::to_string(tofmax_req) + " but the sensitivity is computed with the non-TOF projector (all TOF bins): " + c.str());
-      // All comparisons (model lines and oracle) are for the requested TOF range.
-      const int tofmax_eff = tofmax_req;
-      // all bins of the data set within the segment and TOF range (for the "sum over subsets = full" clause), independent of the subset scheme
-      const Geo& gs = same_proj ? k.g : k.gs;
-      const int stofmax = same_proj ? tofmax_eff : 0;
-      const char* sens_op = same_proj ? "sens" : "ssens";
-      const char* sensdiv_op = same_proj ? "sensdiv" : "ssensdiv";
-      std::vector<int> all_bins, all_sens_bins;
-      for (std::size_t i = 0; i < k.g.bins.size(); ++i)
-        if (std::abs(k.g.bins[i].seg) <= k.maxseg_eff && std::abs(k.g.bins[i].tof) <= tofmax_eff && !(c.zero && k.g.bins[i].endplane))
-          all_bins.push_back(static_cast<int>(i));
-      for (std::size_t i = 0; i < gs.bins.size(); ++i)
-        if (std::abs(gs.bins[i].seg) <= k.maxseg_eff && std::abs(gs.bins[i].tof) <= stofmax && !(c.zero && gs.bins[i].endplane))
-          all_sens_bins.push_back(static_cast<int>(i));
-
-      const DataSymmetriesForViewSegmentNumbers& sym = *k.pair->get_symmetries_used();
-      shared_ptr<DataSymmetriesForViewSegmentNumbers> sens_sym_holder;
-      if (!same_proj)
-        {
-          // symmetries of a projector with the same switches on the non-TOF geometry (what the clone of the back projector uses)
-          shared_ptr<ProjectorByBinPair> p2 = make_pair_with_symmetries(c.symflags);
-          p2->set_up(k.gs.pdi, k.image);
-          sens_sym_holder.reset(p2->get_symmetries_used()->clone());
-        }
-      const DataSymmetriesForViewSegmentNumbers& ssym = same_proj ? sym : *sens_sym_holder;
-
-      std::vector<double> sum_grad(nvox, 0.), sum_gps(nvox, 0.), sum_sens(nvox, 0.), sum_hess(nvox, 0.), sum_mag_grad(nvox, 0.),
-          sum_mag_hess(nvox, 0.);
-      double sum_value = 0;
-      std::map<int, int> vg_count;
       const float c0 = rng.coin() ? 0.F : static_cast<float>(rng.range(1, 8)) * 0.25F;
-      bool all_regular = true;
-
-      for (int s = 0; s < n; ++s)
-        {
-          const std::vector<int> vg = subset_viewgrams(k.g, sym, k.maxseg_eff, tofmax_eff, s, n);
-          const std::vector<int> svg = subset_viewgrams(gs, ssym, k.maxseg_eff, stofmax, s, n);
-          for (int id : vg)
-            vg_count[id]++;
-          const std::string tail = ids_str(vg);
-          const std::vector<int> tb_bins = bins_of(k.g, vg, c.zero);
-          const std::vector<int> tb_sbins = bins_of(gs, svg, c.zero);
-          std::string ctx = c.str() + " n=" + std::to_string(n) + " subset=" + std::to_string(s);
-
-          // ---- value
-          double value = 0;
-          const bool value_ok = guarded([&] { value = obj->compute_objective_function(*lam_im, s); });
-          o.line("val" + tail, value_ok ? vh::hex(value) : "err");
-          {
-            Textbook t = textbook(Q_VALUE, k.g, tb_bins, c.additive, k.lam, k.x, nvox);
-            ++o.checks;
-            all_regular = all_regular && t.regular;
-            if (!value_ok)
-              o.fail("value: exception " + ctx);
-            else if (t.regular)
-              {
-                ++hist["oracle-value-regular"];
-                if (!(std::fabs(value - t.s) <= ORACLE_REL * t.sm + 1e-30))
-                  o.fail("value differs from sum_b y log(n(P lambda + a)) - n(P lambda + a): impl=" + vh::hex(value) + " textbook=" + vh::hex(t.s) + " "
-                         + ctx);
-              }
-            else
-              ++hist["oracle-value-irregular"];
-            sum_value += value;
-          }
-          // ---- gradient
-          shared_ptr<TargetT> grad(k.image->get_empty_copy());
-          grad->fill(7.F); // must be overwritten
-          const bool grad_ok = guarded([&] { obj->compute_sub_gradient(*grad, *lam_im, s); });
-          const std::vector<float> gradv = to_vec(*grad);
-          o.line("grad" + tail, grad_ok ? hexvec(gradv) : "err");
-          shared_ptr<TargetT> gps(k.image->get_empty_copy());
-          gps->fill(-3.F);
-          const bool gps_ok = guarded([&] { obj->compute_sub_gradient_without_penalty_plus_sensitivity(*gps, *lam_im, s); });
-          const std::vector<float> gpsv = to_vec(*gps);
-          o.line("gps" + tail, gps_ok ? hexvec(gpsv) : "err");
-          // ---- subset sensitivity
-          std::vector<float> sensv;
-          const bool sens_ok = guarded([&] { sensv = to_vec(obj->get_subset_sensitivity(s)); });
-          if (c.use_subset_sens)
-            o.line(sens_op + ids_str(svg), sens_ok ? hexvec(sensv) : "err");
-          else
-            {
-              // total sensitivity divided by the number of subsets
-              std::vector<int> allvg;
-              for (int s2 = 0; s2 < n; ++s2)
-                {
-                  const std::vector<int> v2 = subset_viewgrams(gs, ssym, k.maxseg_eff, stofmax, s2, n);
-                  allvg.insert(allvg.end(), v2.begin(), v2.end());
-                }
-              o.line(std::string(sensdiv_op) + " " + std::to_string(n) + ids_str(allvg), sens_ok ? hexvec(sensv) : "err");
-            }
-          {
-            Textbook tg = textbook(Q_GRAD, k.g, tb_bins, c.additive, k.lam, k.x, nvox);
-            Textbook tp = textbook(Q_GPS, k.g, tb_bins, c.additive, k.lam, k.x, nvox);
-            Textbook ts = textbook(Q_SENS, gs, tb_sbins, c.additive, k.lam, k.x, nvox);
-            o.checks += 4;
-            if (!grad_ok || !gps_ok || !sens_ok)
-              o.fail("gradient/sensitivity: exception " + ctx);
-            else
-              {
-                if (tg.regular)
-                  {
-                    ++hist["oracle-gradient-regular"];
-                    int bad = cmp_vec(gradv, tg.v, tg.m, ORACLE_REL);
-                    if (bad >= 0)
-                      o.fail("gradient differs from P^T(y/(P lambda + a) - n) at voxel " + std::to_string(bad) + ": impl=" + vh::hex(gradv[bad])
-                             + " textbook=" + vh::hex(tg.v[bad]) + " " + ctx);
-                    bad = cmp_vec(gpsv, tp.v, tp.m, ORACLE_REL);
-                    if (bad >= 0)
-                      o.fail("gradient-plus-sensitivity differs from P^T(y/(P lambda + a)) at voxel " + std::to_string(bad) + ": impl="
-                             + vh::hex(gpsv[bad]) + " textbook=" + vh::hex(tp.v[bad]) + " " + ctx);
-                  }
-                else
-                  ++hist["oracle-gradient-irregular"];
-                if (c.use_subset_sens)
-                  {
-                    ++hist["oracle-subset-sensitivity"];
-                    int bad = cmp_vec(sensv, ts.v, ts.m, ORACLE_REL);
-                    if (bad >= 0)
-                      o.fail("subset sensitivity differs from P^T n at voxel " + std::to_string(bad) + ": impl=" + vh::hex(sensv[bad]) + " textbook="
-                             + vh::hex(ts.v[bad]) + " " + ctx);
-                  }
-                // "gradient plus sensitivity" exceeds the gradient by exactly the sensitivity (same projector; subset sensitivities)
-                if (same_proj && c.use_subset_sens)
-                  {
-                    ++hist["oracle-gps-minus-grad"];
-                    std::vector<float> diff(nvox);
-                    std::vector<double> mag(nvox);
-                    for (int i = 0; i < nvox; ++i)
-                      diff[i] = gpsv[i] - gradv[i], mag[i] = tg.m[i] + ts.m[i] + std::fabs(gpsv[i]) + std::fabs(gradv[i]);
-                    int bad = cmp_vec(diff, ts.v, mag, ORACLE_REL);
-                    if (bad >= 0)
-                      o.fail("gradient_plus_sensitivity - gradient != P^T n at voxel " + std::to_string(bad) + ": "
-                             + vh::hex(diff[bad]) + " vs " + vh::hex(ts.v[bad]) + " " + ctx);
-                    std::vector<double> sd(sensv.begin(), sensv.end());
-                    bad = cmp_vec(diff, sd, mag, ORACLE_REL);
-                    if (bad >= 0)
-                      o.fail("gradient_plus_sensitivity - gradient != get_subset_sensitivity at voxel " + std::to_string(bad) + ": "
-                             + vh::hex(diff[bad]) + " vs " + vh::hex(sensv[bad]) + " " + ctx);
-                  }
-                for (int i = 0; i < nvox; ++i)
-                  sum_grad[i] += gradv[i], sum_gps[i] += gpsv[i], sum_sens[i] += sensv[i], sum_mag_grad[i] += std::fabs(gradv[i]) + tg.m[i];
-              }
-          }
-          // ---- Hessian times input
-          shared_ptr<TargetT> hs(k.image->get_empty_copy());
-          hs->fill(c0);
-          Succeeded hs_s = Succeeded::no;
-          const bool hess_ok = guarded([&] { hs_s = obj->accumulate_sub_Hessian_times_input(*hs, *lam_im, *x_im, s); }) && hs_s == Succeeded::yes;
-          const std::vector<float> hessv = to_vec(*hs);
-          o.line("hess " + vh::hex(c0) + tail, hess_ok ? hexvec(hessv) : "err");
-          {
-            Textbook th = textbook(Q_HESS, k.g, tb_bins, c.additive, k.lam, k.x, nvox);
-            ++o.checks;
-            if (!hess_ok)
-              o.fail("Hessian times input: exception " + ctx);
-            else if (th.regular)
-              {
-                ++hist["oracle-hessian-regular"];
-                std::vector<float> h0(nvox);
-                for (int i = 0; i < nvox; ++i)
-                  h0[i] = hessv[i] - c0, th.m[i] += std::fabs(c0);
-                int bad = cmp_vec(h0, th.v, th.m, ORACLE_REL);
-                // (the bins of the data: with zero_seg0_end_planes the end planes of segment 0 are excluded, as for value and gradient)
-                if (bad >= 0)
-                  o.fail("Hessian times input differs from -P^T diag(y/(P lambda + a)^2) P x at voxel " + std::to_string(bad) + ": impl="
-                         + vh::hex(h0[bad]) + " textbook=" + vh::hex(th.v[bad]) + " " + ctx);
-              }
-            else
-              ++hist["oracle-hessian-irregular"];
-            for (int i = 0; i < nvox; ++i)
-              sum_hess[i] += double(hessv[i]) - c0, sum_mag_hess[i] += th.m[i] + std::fabs(hessv[i]);
-          }
-          // ---- approximate Hessian
-          shared_ptr<TargetT> ah(k.image->get_empty_copy());
-          ah->fill(c0);
-          Succeeded ah_s = Succeeded::no;
-          const bool ah_ok = guarded([&] { ah_s = obj->add_multiplication_with_approximate_sub_Hessian(*ah, *x_im, s); }) && ah_s == Succeeded::yes;
-          o.line("ahess " + vh::hex(c0) + tail, ah_ok ? hexvec(to_vec(*ah)) : "err");
-          ++o.checks;
-          if (!ah_ok)
-            o.fail("approximate Hessian: exception " + ctx);
-        }
-
-      // ---- the full-data functions of the API against the sum of the subset results
-      {
-        std::string ctx = c.str() + " n=" + std::to_string(n);
-        o.checks += 2;
-        double full_value = 0;
-        shared_ptr<TargetT> full_grad(k.image->get_empty_copy());
-        full_grad->fill(5.F);
-        if (!guarded([&] {
-              full_value = obj->compute_objective_function(*lam_im);
-              obj->compute_gradient(*full_grad, *lam_im);
-            }))
-          o.fail("full-data value/gradient: exception " + ctx);
-        else
-          {
-            if (!(std::fabs(full_value - sum_value) <= 1e-9 * (std::fabs(sum_value) + 1)))
-              o.fail("compute_objective_function(image) != sum over subsets: " + vh::hex(full_value) + " vs " + vh::hex(sum_value) + " " + ctx);
-            std::vector<float> fg = to_vec(*full_grad);
-            int bad = cmp_vec(fg, sum_grad, sum_mag_grad, 1e-5);
-            if (bad >= 0)
-              o.fail("compute_gradient != sum over subsets of compute_sub_gradient at voxel " + std::to_string(bad) + " " + ctx);
-          }
-        // full-data Hessian product of the API = the subset products accumulated one after the other (any configuration)
-        {
-          ++o.checks;
-          shared_ptr<TargetT> fh(k.image->get_empty_copy());
-          fh->fill(c0);
-          Succeeded fs = Succeeded::no;
-          if (!(guarded([&] { fs = obj->accumulate_Hessian_times_input(*fh, *lam_im, *x_im); }) && fs == Succeeded::yes))
-            o.fail("full-data Hessian times input: exception " + ctx);
-          else
-            {
-              std::vector<float> fhv = to_vec(*fh);
-              std::vector<double> expect(nvox), mag(nvox);
-              for (int i = 0; i < nvox; ++i)
-                fhv[i] -= c0, expect[i] = sum_hess[i], mag[i] = sum_mag_hess[i] + std::fabs(c0) * (n + 1);
-              int bad = cmp_vec(fhv, expect, mag, 1e-5);
-              if (bad >= 0)
-                o.fail("accumulate_Hessian_times_input != sum over subsets of accumulate_sub_Hessian_times_input at voxel " + std::to_string(bad) + ": "
-                       + vh::hex(fhv[bad]) + " vs " + vh::hex(expect[bad]) + " " + ctx);
-            }
-        }
-        // subset numbers outside 0..n-1 are refused (GeneralisedObjectiveFunction.cxx:136, :232)
-        for (int s : { -1, n, n + 3, 0 })
-          {
-            shared_ptr<TargetT> tmp(k.image->get_empty_copy());
-            const bool ok1 = guarded([&] { obj->compute_sub_gradient(*tmp, *lam_im, s); });
-            const bool ok2 = guarded([&] { obj->compute_objective_function(*lam_im, s); });
-            o.line("range " + std::to_string(n) + " " + std::to_string(s), std::string(ok1 ? "ok" : "err") + " " + (ok2 ? "ok" : "err"));
-            ++o.checks;
-            if (ok1 != (s >= 0 && s < n) || ok2 != (s >= 0 && s < n))
-              o.fail("subset number " + std::to_string(s) + " of " + std::to_string(n) + (ok1 ? " accepted" : " refused") + " " + ctx);
-          }
-      }
-      // ---- each quantity summed over all subsets equals its full-data counterpart (textbook on ALL bins, no subset scheme involved)
-      {
-        std::string ctx = c.str() + " n=" + std::to_string(n);
-        o.checks += 5;
-        // every viewgram of the segment range exactly once over the subsets
-        bool part_ok = true;
-        for (auto& kv : k.g.vgid)
-          if (std::abs(kv.first[0]) <= k.maxseg_eff && std::abs(kv.first[2]) <= tofmax_eff)
-            part_ok = part_ok && vg_count[kv.second] == 1;
-        for (auto& kv : vg_count)
-          part_ok = part_ok && kv.second == 1;
-        if (!part_ok)
-          o.fail("viewgrams of the subsets do not partition the data " + ctx);
-        Textbook tv = textbook(Q_VALUE, k.g, all_bins, c.additive, k.lam, k.x, nvox);
-        Textbook tg = textbook(Q_GRAD, k.g, all_bins, c.additive, k.lam, k.x, nvox);
-        Textbook ts = textbook(Q_SENS, gs, all_sens_bins, c.additive, k.lam, k.x, nvox);
-        Textbook th = textbook(Q_HESS, k.g, all_bins, c.additive, k.lam, k.x, nvox);
-        if (tv.regular)
-          {
-            ++hist["oracle-sum-over-subsets"];
-            if (!(std::fabs(sum_value - tv.s) <= ORACLE_REL * tv.sm + 1e-30))
-              o.fail("sum over subsets of the value != full-data value: " + vh::hex(sum_value) + " vs " + vh::hex(tv.s) + " " + ctx);
-            std::vector<float> sg(sum_grad.begin(), sum_grad.end());
-            int bad = cmp_vec(sg, tg.v, tg.m, 2 * ORACLE_REL);
-            if (bad >= 0)
-              o.fail("sum over subsets of the gradient != full-data gradient at voxel " + std::to_string(bad) + " " + ctx);
-            {
-              const Textbook& thh = th;
-              if (thh.regular)
-                {
-                  ++hist["oracle-sum-over-subsets-hessian"];
-                  std::vector<float> sh(sum_hess.begin(), sum_hess.end());
-                  bad = cmp_vec(sh, thh.v, sum_mag_hess, 2 * ORACLE_REL);
-                  if (bad >= 0)
-                    o.fail("sum over subsets of Hessian times input != full-data Hessian times input at voxel " + std::to_string(bad) + ": "
-                           + vh::hex(sh[bad]) + " vs " + vh::hex(thh.v[bad]) + " " + ctx);
-                }
-            }
-          }
-        {
-          std::vector<float> ss(sum_sens.begin(), sum_sens.end());
-          int bad = cmp_vec(ss, ts.v, ts.m, 2 * ORACLE_REL);
-          if (bad >= 0)
-            o.fail("sum over subsets of the subset sensitivities != full sensitivity P^T n at voxel " + std::to_string(bad) + ": " + vh::hex(ss[bad])
-                   + " vs " + vh::hex(ts.v[bad]) + " " + ctx);
-          std::vector<float> tot = to_vec(obj->get_sensitivity());
-          bad = cmp_vec(tot, ts.v, ts.m, 2 * ORACLE_REL);
-          if (bad >= 0)
-            o.fail("get_sensitivity() != P^T n at voxel " + std::to_string(bad) + ": " + vh::hex(tot[bad]) + " vs " + vh::hex(ts.v[bad]) + " " + ctx);
-        }
-      }
+      check_object(o, k, obj.p, n, c0, true, hist);
     }
 }
 
@@ -1775,6 +1826,517 @@ run_loaded(Out& o, Case& k, vh::Rng& rng, const std::string& prefix, std::map<st
     }
 }
 
+// ------------------------------------------------------------------------------------------------
+// OBJECT RE-USE HISTORIES ("histories" of the quantifier): ONE objective function object is set_up several times.  After every
+// set_up (the first one and 1..3 — thorough: up to 4 — later ones) something is changed through the public setters — nothing at all,
+// the number of subsets, use_subset_sensitivities, zero_seg0_end_planes, max_segment_num_to_process, the TOF range, the measured data,
+// the additive term, the normalisation object, the target image (another object of the same size / another size), or everything at
+// once (the data, geometry, projector pair and image of ANOTHER generated configuration: other scanner, TOF <-> non-TOF, other TOF
+// mashing) — either by calling all setters again or only the setter of what changed; then set_up again.  After EVERY set_up
+//   * requests in Rng order (value, gradient, gradient+sensitivity, sensitivity, Hessian products) are compared bit for bit with the
+//     same request served first by a FRESH object configured identically (projector pair of its own), and their ok/exception pattern
+//     goes to the flag machine of the model (`hist` line);
+//   * everything check_object asks (all subsets, all quantities, full-data functions, total sensitivity) goes to the model lines and
+//     the textbook oracle (sensitivity = back projection of the efficiencies over the subset, sum of subset sensitivities = total, ...)
+//     and is compared bit for bit with the answers of a fresh object configured identically;
+//   * acceptance / refusal of set_up must be that of the fresh object.
+// Sensitivity files: a set_up that recomputes with file names set writes them; the files are read back and compared with what the
+// object holds (total file = get_sensitivity() = sum of the subset shares), a second object reading them must answer everything
+// like the writer, and a later stage of the SAME object reads them (recompute sensitivity := 0, optionally with other measured data).
+struct FileOpts
+{
+  std::string tot, sub;
+  bool recompute = true;
+};
+
+static void
+configure_all(Obj& obj, const Case& k, int n, const FileOpts& f)
+{
+  configure(obj, k, n);
+  if (!k.c.additive)
+    obj.set_additive_proj_data_sptr(shared_ptr<ProjData>());
+  if (!f.sub.empty())
+    obj.set_subsensitivity_filenames(f.sub);
+  obj.set_sensitivity_filename(f.tot);
+  obj.set_recompute_sensitivity(f.recompute);
+}
+
+static void
+new_ydata(Case& k, vh::Rng& rng)
+{
+  std::vector<float> yv(k.g.bins.size());
+  for (std::size_t i = 0; i < k.g.bins.size(); ++i)
+    {
+      BinRec& b = k.g.bins[i];
+      if (rng.range(0, 3) != 0)
+        {
+          int cnt = poisson(rng, std::max(0.3, double(b.y) * (0.5 + rng.unit())));
+          if (k.c.datamode == 1)
+            cnt = std::max(cnt, 1);
+          b.y = static_cast<float>(cnt);
+        }
+      yv[i] = b.y;
+    }
+  k.ydata = make_projdata(k.exam, k.g, yv);
+}
+
+static void
+new_additive(Case& k, vh::Rng& rng, bool on)
+{
+  k.c.additive = on;
+  std::vector<float> av(k.g.bins.size());
+  for (std::size_t i = 0; i < k.g.bins.size(); ++i)
+    {
+      k.g.bins[i].a = on ? static_cast<float>(0.05 + 0.8 * rng.unit()) : 0.F;
+      av[i] = k.g.bins[i].a;
+    }
+  if (on)
+    k.adata = make_projdata(k.exam, k.g, av);
+  else
+    k.adata.reset();
+}
+
+static void
+new_norm(Case& k, vh::Rng& rng, int kind)
+{
+  k.c.normkind = kind;
+  for (auto& b : k.g.bins)
+    b.fac.clear();
+  for (auto& b : k.gs.bins)
+    b.fac.clear();
+  k.norm_links.clear();
+  k.norm_tof = false;
+  k.norm = make_norm(k, rng);
+}
+
+// another target image: other number of voxels across and/or other voxel size; false if the explicit rows are not the projector's rows
+static bool
+new_image(Case& k, vh::Rng& rng)
+{
+  CaseCfg& c = k.c;
+  if (rng.range(0, 2) != 0)
+    c.nxy = c.nxy == 5 ? 7 : 5;
+  c.voxel_factor = static_cast<float>(0.75 + 0.5 * rng.unit());
+  const float bin_size = k.g.pdi->get_sampling_in_s(Bin(0, 0, 0, 0));
+  const float voxel = bin_size * c.ntang / c.nxy * c.voxel_factor;
+  k.image = vh::make_image(*k.g.pdi, k.g.pdi->get_scanner_ptr()->get_default_bin_size() / voxel, c.nxy, 2 * c.R - 1);
+  k.image->set_exam_info(*k.exam);
+  k.ix = new ImgIdx(*k.image);
+  fill_rows(k.g, k.image, *k.ix);
+  double pmax = 0;
+  if (row_discrepancy(k.g, k.image, *k.ix, c.symflags, &pmax) > 5.e-7 * pmax)
+    return false;
+  if (k.tof)
+    fill_rows(k.gs, k.image, *k.ix);
+  const int nvox = k.ix->size();
+  k.lam.resize(nvox), k.x.resize(nvox);
+  for (int i = 0; i < nvox; ++i)
+    {
+      k.lam[i] = static_cast<float>(0.25 + 2.5 * rng.unit());
+      k.x[i] = static_cast<float>(0.1 + 1.5 * rng.unit());
+      const int yidx = (i / k.ix->nx) % k.ix->ny + k.ix->y0;
+      if (c.datamode == 2 && yidx >= 1)
+        k.lam[i] = 0.F;
+    }
+  return true;
+}
+
+static int
+pick_n(const Case& k, vh::Rng& rng)
+{
+  const int views = k.c.N / 2;
+  if (rng.range(0, 3) == 0)
+    return rng.range(1, views);
+  std::vector<int> d;
+  for (int n = 1; n <= views; ++n)
+    if (views % n == 0)
+      d.push_back(n);
+  return d[rng.range(0, static_cast<int>(d.size()) - 1)];
+}
+
+typedef std::vector<std::pair<std::string, std::string>> Record;
+
+static void
+run_reuse(Out& o, const Case& base, const Case* other, vh::Rng& rng, int case_id, bool thorough, const std::string& prefix,
+          std::map<std::string, long>& hist)
+{
+  const int nstages = 2 + rng.range(0, thorough ? 3 : 2);
+  Holder H(rng.coin() ? 0 : 1);
+  Case cur = base;
+  int n = pick_n(cur, rng);
+  FileOpts fo; // the file options the object has
+  const std::string totname = prefix + "_rtot.hv", subname = prefix + "_rsub%d.hv";
+  auto remove_files = [&](const std::string& stem) {
+    for (const char* ext : { ".hv", ".v", ".ahv" })
+      {
+        std::remove((prefix + "_" + stem + "tot" + ext).c_str());
+        for (int s = 0; s < 16; ++s)
+          std::remove((prefix + "_" + stem + "sub" + std::to_string(s) + ext).c_str());
+      }
+  };
+  bool prev_accepted = false, prev_wrote = false;
+  std::map<std::string, long> dummy_hist;
+  std::string story;
+
+  for (int st = 0; st < nstages; ++st)
+    {
+      std::string what = "first";
+      std::vector<std::function<void(Obj&)>> minimal;
+      bool full = st == 0;
+      bool recompute = true;
+      bool same_target_clone = false;
+      const int old_n = n;
+      if (st > 0)
+        {
+          int m = prev_accepted && prev_wrote && rng.range(0, 2) == 0 ? 11 : rng.range(0, 10);
+          if (m == 10 && !cur.tof)
+            m = 9;
+          if (m == 5 && cur.c.datamode == 2)
+            m = 4;
+          if (m == 8 && !other)
+            m = 9;
+          switch (m)
+            {
+            case 0:
+              what = "num_subsets";
+              do
+                n = pick_n(cur, rng);
+              while (n == old_n && cur.c.N / 2 > 1);
+              break;
+            case 1:
+              what = "use_subset_sensitivities";
+              cur.c.use_subset_sens = !cur.c.use_subset_sens;
+              minimal.push_back([&cur](Obj& ob) { ob.set_use_subset_sensitivities(cur.c.use_subset_sens); });
+              break;
+            case 2:
+              what = "zero_seg0_end_planes";
+              cur.c.zero = !cur.c.zero;
+              minimal.push_back([&cur](Obj& ob) { ob.set_zero_seg0_end_planes(cur.c.zero); });
+              break;
+            case 3: {
+              what = "max_segment_num_to_process";
+              const int top = cur.g.pdi->get_max_segment_num();
+              const int old = cur.c.maxseg;
+              for (int t = 0; t < 8 && cur.c.maxseg == old; ++t)
+                cur.c.maxseg = rng.range(-1, top);
+              minimal.push_back([&cur](Obj& ob) { ob.set_max_segment_num_to_process(cur.c.maxseg); });
+              break;
+            }
+            case 4:
+              what = "proj_data";
+              new_ydata(cur, rng);
+              minimal.push_back([&cur](Obj& ob) { ob.set_proj_data_sptr(cur.ydata); });
+              break;
+            case 5:
+              what = "additive";
+              new_additive(cur, rng, cur.c.additive ? rng.coin() : true);
+              minimal.push_back([&cur](Obj& ob) { ob.set_additive_proj_data_sptr(cur.adata); });
+              break;
+            case 6: {
+              what = "normalisation";
+              int kind = cur.c.normkind;
+              while (kind == cur.c.normkind)
+                kind = rng.range(0, cur.tof ? 7 : 4);
+              new_norm(cur, rng, kind);
+              minimal.push_back([&cur](Obj& ob) { ob.set_normalisation_sptr(cur.norm); });
+              break;
+            }
+            case 7: {
+              what = "target";
+              Case trial = cur;
+              if (new_image(trial, rng))
+                cur = trial;
+              else
+                what = "same", same_target_clone = true;
+              break;
+            }
+            case 8:
+              what = "everything";
+              cur = *other;
+              n = pick_n(cur, rng);
+              full = true;
+              break;
+            case 10: {
+              what = "max_timing_pos_num_to_process";
+              const int old = cur.c.maxtof;
+              for (int t = 0; t < 8 && cur.c.maxtof == old; ++t)
+                cur.c.maxtof = rng.range(-1, cur.tofmax_data);
+              minimal.push_back([&cur](Obj& ob) { ob.set_max_timing_pos_num_to_process(cur.c.maxtof); });
+              break;
+            }
+            case 11:
+              what = "read-back";
+              recompute = false;
+              if (rng.coin())
+                {
+                  what = "read-back+proj_data";
+                  new_ydata(cur, rng);
+                  minimal.push_back([&cur](Obj& ob) { ob.set_proj_data_sptr(cur.ydata); });
+                }
+              break;
+            default:
+              what = "same";
+              same_target_clone = rng.coin();
+              break;
+            }
+          // besides, sometimes another number of subsets
+          if (m != 0 && m != 8 && m != 11 && rng.range(0, 2) == 0)
+            n = pick_n(cur, rng);
+        }
+      if (n != old_n)
+        minimal.push_back([&n](Obj& ob) { ob.set_num_subsets(n); });
+      // file options of this stage
+      FileOpts want = fo;
+      want.recompute = recompute;
+      if (recompute && (st == 0 ? rng.coin() : rng.range(0, 2) == 0))
+        {
+          if (cur.c.use_subset_sens)
+            want.sub = subname;
+          else
+            want.tot = want.tot.empty() ? totname : std::string();
+        }
+      if (!full && rng.coin())
+        full = true;
+      if (full)
+        {
+          if (st > 0 && what != "read-back" && what != "read-back+proj_data")
+            cur.c.use_tofsens = cur.tof && rng.coin();
+          configure_all(*H, cur, n, want);
+        }
+      else
+        {
+          for (auto& f : minimal)
+            f(*H);
+          if (want.sub != fo.sub)
+            H->set_subsensitivity_filenames(want.sub);
+          if (want.tot != fo.tot)
+            H->set_sensitivity_filename(want.tot);
+          H->set_recompute_sensitivity(want.recompute);
+        }
+      fo = want;
+      // the TOF sensitivity switch has no public setter and is left on by an earlier set_up that switched it on
+      cur.c.use_tofsens = H->get_use_tofsens();
+      cur.same_proj = !cur.tof || cur.c.use_tofsens || cur.norm_tof;
+      cur.maxseg_eff = cur.c.maxseg < 0 ? cur.g.pdi->get_max_segment_num() : cur.c.maxseg;
+      const bool writes = recompute && (cur.c.use_subset_sens ? !fo.sub.empty() : !fo.tot.empty());
+      story += (st ? " -> " : "") + what + (full ? "(all setters)" : "(one setter)") + " n=" + std::to_string(n)
+               + (recompute ? "" : " recompute=0") + (writes ? " writes-files" : "");
+      const std::string ctx = "history `" + story + "` set_up number " + std::to_string(st + 1) + "; " + cur.c.str();
+
+      // ---- context lines of the stage
+      {
+        char buf[640];
+        std::snprintf(buf, sizeof buf, "cfg %d nvox=%d zero=%d sameproj=%d %s reuse=%d change=%s setters=%s n=%d recompute=%d", case_id * 10 + st + 1000,
+                      cur.ix->size(), cur.c.zero ? 1 : 0, cur.same_proj ? 1 : 0, cur.c.str().c_str(), st, what.c_str(), full ? "all" : "one", n,
+                      recompute ? 1 : 0);
+        o.line(buf, "ok");
+        o.line("img " + hexvec(cur.lam), "ok");
+        o.line("inp " + hexvec(cur.x), "ok");
+        emit_geometry(o, cur, "bin", cur.g, true);
+        if (cur.tof)
+          emit_geometry(o, cur, "sbin", cur.gs, false);
+      }
+      shared_ptr<TargetT> lam_im(cur.image->get_empty_copy()), x_im(cur.image->get_empty_copy());
+      from_vec(*lam_im, cur.lam);
+      from_vec(*x_im, cur.x);
+
+      // ---- set_up of the re-used object, and of a fresh object configured identically (projector pair of its own)
+      shared_ptr<TargetT> target = same_target_clone ? shared_ptr<TargetT>(cur.image->clone()) : cur.image;
+      const bool accH = guarded([&] {
+        if (H->set_up(target) != Succeeded::yes)
+          throw 1;
+      });
+      Case twin = cur;
+      twin.pair = make_pair_with_symmetries(cur.c.symflags);
+      FileOpts fF = fo;
+      if (recompute)
+        {
+          if (!fF.tot.empty())
+            fF.tot = prefix + "_ftot.hv";
+          if (!fF.sub.empty())
+            fF.sub = prefix + "_fsub%d.hv";
+        }
+      Holder F(rng.coin() ? 0 : 1);
+      configure_all(*F, twin, n, fF);
+      F->set_use_tofsens(cur.c.use_tofsens);
+      const bool accF = guarded([&] {
+        if (F->set_up(cur.image) != Succeeded::yes)
+          throw 1;
+      });
+      ++o.checks;
+      ++hist[st == 0 ? "reuse-first-setup" : "reuse-resetup-" + what];
+      if (accH != accF)
+        o.fail(std::string("set_up of a re-used object ") + (accH ? "succeeds" : "fails") + " whereas set_up of a fresh object configured identically "
+               + (accF ? "succeeds" : "fails") + ": " + ctx);
+      if (!accH || !accF)
+        {
+          ++hist["reuse-setup-refused"];
+          prev_accepted = false, prev_wrote = false;
+          continue;
+        }
+      ++hist["reuse-setup-ok"];
+      if (st >= 2)
+        ++hist["reuse-setup-ok-third-or-later"];
+
+      // ---- requests in Rng order on the re-used object
+      std::vector<std::string> kinds = { "value", "gradient", "gps", "hessian", "ahessian" };
+      if (recompute)
+        kinds.push_back("sensitivity"); // (add_subset_sensitivity needs the objects only created when the sensitivities are computed)
+      std::vector<std::string> reqs;
+      {
+        const int len = rng.range(3, 6);
+        for (int i = 0; i < len; ++i)
+          reqs.push_back(kinds[rng.range(0, static_cast<int>(kinds.size()) - 1)]);
+      }
+      std::vector<ReqResult> resH;
+      {
+        std::string op = std::string("hist ") + (!cur.tof || H->get_use_tofsens() ? "1" : "0") + " " + (recompute ? "1" : "0") + " " + std::to_string(n) + " 0 0";
+        std::string ans;
+        for (auto& req : reqs)
+          {
+            resH.push_back(serve(*H, cur, req, *lam_im, *x_im));
+            op += " " + req;
+            ans += std::string(ans.empty() ? "" : " ") + (resH.back().ok ? "1" : "0");
+          }
+        o.line(op, ans);
+      }
+      // ---- everything, to the model and the textbook oracle
+      const float c0 = rng.coin() ? 0.F : static_cast<float>(rng.range(1, 8)) * 0.25F;
+      Record recH, recF;
+      o.rec = &recH;
+      check_object(o, cur, H.p, n, c0, recompute, hist);
+      o.rec = nullptr;
+
+      // ---- the same on fresh objects, silently
+      auto compare_records = [&](const Record& a, const Record& b, const std::string& who) {
+        ++o.checks;
+        if (a.size() != b.size())
+          {
+            o.fail("re-used object and " + who + " give a different number of answers: " + ctx);
+            return;
+          }
+        for (std::size_t i = 0; i < a.size(); ++i)
+          if (a[i].second != b[i].second)
+            {
+              o.fail("re-used object: the answer to `" + a[i].first.substr(0, 40) + "` (answer number " + std::to_string(i) + " after the set_up) differs from that of "
+                     + who + ": " + a[i].second.substr(0, 60) + " vs " + b[i].second.substr(0, 60) + "; " + ctx);
+              return;
+            }
+      };
+      {
+        const long checks_before = o.checks;
+        o.mute = true;
+        o.rec = &recF;
+        check_object(o, twin, F.p, n, c0, recompute, dummy_hist);
+        o.rec = nullptr;
+        o.mute = false;
+        o.checks = checks_before;
+        compare_records(recH, recF, "a fresh object configured identically");
+      }
+      for (std::size_t i = 0; i < reqs.size(); ++i)
+        {
+          // the request served FIRST by a fresh object
+          bool seen = false;
+          for (std::size_t j = 0; j < i; ++j)
+            seen = seen || reqs[j] == reqs[i];
+          if (seen && !thorough)
+            continue;
+          Case tw = cur;
+          tw.pair = make_pair_with_symmetries(cur.c.symflags);
+          FileOpts f1 = fo;
+          if (recompute)
+            f1.tot.clear(), f1.sub.clear();
+          Holder T(rng.coin() ? 0 : 1);
+          configure_all(*T, tw, n, f1);
+          T->set_use_tofsens(cur.c.use_tofsens);
+          if (!guarded([&] {
+                if (T->set_up(cur.image) != Succeeded::yes)
+                  throw 1;
+              }))
+            continue;
+          const ReqResult rf = serve(*T, tw, reqs[i], *lam_im, *x_im);
+          ++o.checks;
+          if (!rf.same(resH[i]))
+            o.fail("re-used object: request '" + reqs[i] + "' (number " + std::to_string(i + 1) + " after the set_up) "
+                   + (resH[i].ok ? "gives a different result than" : "fails, whereas it succeeds") + " as the first request of a fresh object configured identically; "
+                   + ctx);
+        }
+
+      // ---- the files the set_up wrote
+      if (writes)
+        {
+          ++hist["reuse-files-written"];
+          const int nvox = cur.ix->size();
+          ++o.checks;
+          const bool read_ok = guarded([&] {
+            if (cur.c.use_subset_sens)
+              {
+                for (int s = 0; s < n; ++s)
+                  {
+                    shared_ptr<TargetT> f(read_from_file<TargetT>(prefix + "_rsub" + std::to_string(s) + ".hv"));
+                    if (to_vec(*f) != to_vec(H->get_subset_sensitivity(s)))
+                      o.fail("subset sensitivity file " + std::to_string(s) + " differs from get_subset_sensitivity: " + ctx);
+                  }
+              }
+            else
+              {
+                shared_ptr<TargetT> f(read_from_file<TargetT>(totname));
+                const std::vector<float> fv = to_vec(*f);
+                if (fv != to_vec(H->get_sensitivity()))
+                  o.fail("sensitivity file differs from get_sensitivity(): " + ctx);
+                // the total is the sum over the subsets
+                std::vector<double> sum(nvox, 0.), mag(nvox, 0.);
+                for (int s = 0; s < n; ++s)
+                  {
+                    const std::vector<float> sv = to_vec(H->get_subset_sensitivity(s));
+                    for (int i = 0; i < nvox; ++i)
+                      sum[i] += sv[i], mag[i] += std::fabs(sv[i]);
+                  }
+                const int bad = cmp_vec(fv, sum, mag, 1e-6 * (n + 1));
+                if (bad >= 0)
+                  o.fail("sensitivity file is not the sum of the subset sensitivities at voxel " + std::to_string(bad) + ": " + vh::hex(fv[bad]) + " vs "
+                         + vh::hex(sum[bad]) + "; " + ctx);
+              }
+          });
+          if (!read_ok)
+            o.fail("the sensitivity file(s) a later set_up of a re-used object should have written cannot be read: " + ctx);
+          // a second object that reads them answers everything like the writer
+          Case tw = cur;
+          tw.pair = make_pair_with_symmetries(cur.c.symflags);
+          FileOpts fr = fo;
+          fr.recompute = false;
+          Holder R(rng.coin() ? 0 : 1);
+          configure_all(*R, tw, n, fr);
+          R->set_use_tofsens(H->get_use_tofsens());
+          ++o.checks;
+          if (!guarded([&] {
+                if (R->set_up(cur.image) != Succeeded::yes)
+                  throw 1;
+              }))
+            o.fail("set_up refuses to read the sensitivity file(s) a later set_up of a re-used object has written: " + ctx);
+          else
+            {
+              Record recR;
+              const long checks_before = o.checks;
+              o.mute = true;
+              o.rec = &recR;
+              check_object(o, tw, R.p, n, c0, false, dummy_hist);
+              o.rec = nullptr;
+              o.mute = false;
+              o.checks = checks_before;
+              compare_records(recH, recR, "a second object that read the sensitivity file(s) written by this set_up");
+            }
+        }
+      if (!recompute)
+        ++hist["reuse-files-read-by-same-object"];
+      prev_accepted = true;
+      prev_wrote = writes || (!recompute && prev_wrote);
+      remove_files("f");
+    }
+  remove_files("r");
+  remove_files("f");
+}
+
 int
 main(int argc, char** argv)
 {
@@ -1790,6 +2352,7 @@ main(int argc, char** argv)
   std::map<std::string, long> hist;
 
   const int ncases = thorough ? 90 : 18;
+  std::unique_ptr<Case> prev; // the previous configuration: what "everything changes" in a re-use history changes to
   int retries = 0;
   for (int ci = 0; ci < ncases; ++ci)
     {
@@ -1857,6 +2420,9 @@ main(int argc, char** argv)
       if (ci % 3 != 2)
         run_orders(o, k, rng, thorough, hist);
       run_loaded(o, k, rng, std::string(argv[4]) + ".sens", hist);
+      for (int rep = 0; rep < (thorough ? 2 : 1); ++rep)
+        run_reuse(o, k, prev.get(), rng, ci, thorough, std::string(argv[4]) + ".sens", hist);
+      prev.reset(new Case(k));
     }
 
   for (auto& kv : hist)
